@@ -174,7 +174,7 @@ class _Explicit_Simple_Integrator(SIntegrator):
                 f"Step under minimum step ({dt}), skipped.",
                 RuntimeWarning
             )
-            return self.t, self.state, np.zeros(self.N_dw)
+            return self.t, self.state, np.zeros(len(self.rhs.sc_ops))
 
         N, extra = np.divmod(delta_t, dt)
         N = int(N)
